@@ -131,6 +131,7 @@ func (p *PauseController) Wait() (PauseWaitAction, string) {
 		select {
 		case <-pauseChannel:
 			verifEvent("gate-wake", p, true)
+			verifYield("req:gate-woken", p)
 			switch p.GetState() {
 			case PauseStateStopped:
 				return PauseWaitActionStopped, p.GetStopMessage()
